@@ -593,7 +593,7 @@ pub mod io {
 /// concrete elements (measured).
 pub mod collections {
     pub use std::collections::*;
-    pub const SCAP: usize = 6;
+    pub const SCAP: usize = 8;
     #[derive(Clone, Debug)]
     pub struct BTreeSet<T> {
         n: usize,
@@ -601,7 +601,7 @@ pub mod collections {
     }
     impl<T: Ord> BTreeSet<T> {
         pub fn new() -> Self {
-            BTreeSet { n: 0, v: [None, None, None, None, None, None] }
+            BTreeSet { n: 0, v: [None, None, None, None, None, None, None, None] }
         }
         pub fn len(&self) -> usize {
             self.n
@@ -654,7 +654,7 @@ pub mod collections {
             true
         }
         pub fn iter(&self) -> SetIter<'_, T> {
-            SetIter { s: self, i: 0 }
+            SetIter { s: self, i: 0, j: self.n }
         }
         pub fn first(&self) -> Option<&T> {
             if self.n == 0 {
@@ -679,14 +679,26 @@ pub mod collections {
     pub struct SetIter<'a, T> {
         s: &'a BTreeSet<T>,
         i: usize,
+        /// elements [i, j) are still to be yielded
+        j: usize,
     }
     impl<'a, T> Iterator for SetIter<'a, T> {
         type Item = &'a T;
         fn next(&mut self) -> Option<&'a T> {
-            if self.i < self.s.n {
+            if self.i < self.j {
                 let r = self.s.v[self.i].as_ref();
                 self.i += 1;
                 r
+            } else {
+                None
+            }
+        }
+    }
+    impl<'a, T> DoubleEndedIterator for SetIter<'a, T> {
+        fn next_back(&mut self) -> Option<&'a T> {
+            if self.i < self.j {
+                self.j -= 1;
+                self.s.v[self.j].as_ref()
             } else {
                 None
             }
@@ -1067,7 +1079,7 @@ pub mod fs {
     use std::path::{Path, PathBuf};
 
     /// Number of distinct file ids.
-    pub const NID: usize = 6;
+    pub const NID: usize = 8;
     pub const NSLOT: usize = NID * 2;
     /// Capacity of one file in bytes.
     pub const FCAP: usize = 32;
